@@ -827,7 +827,13 @@ impl Lexer<'_> {
             }
             c if is_valid_unicode_sas_name_start(c) => {
                 self.lex_identifier();
-                self.set_pending_stat(true);
+                // A datalines block ends with its own terminating semi,
+                // which closes the statement
+                let stat_closed = self
+                    .buffer
+                    .last_token_info()
+                    .map_or(false, |t| t.token_type == TokenType::SEMI);
+                self.set_pending_stat(!stat_closed);
             }
             _ => {
                 // Something else must be a symbol or some unknown character
